@@ -236,6 +236,69 @@ def oracleInTri (p v1 v2 v3 : V2 Rat) (out : List String) : String :=
   | ["none"] => "fail none-for-nondegenerate-triangle"
   | _ => if out = [fb ex] then "pass" else s!"fail triangle-membership expected={ex}"
 
+/-! ## oracle: convex polygon intersection (exact Sutherland–Hodgman) -/
+def shoelaceR (poly : List (V2 Rat)) : Rat := ((edgesOf poly).map fun (a, b) => cross2 a b).foldl (· + ·) 0
+
+/-- strictly convex (every corner a strict turn of the same sign, all vertices on one side of every edge) -/
+def strictlyConvex (poly : List (V2 Rat)) (sl : Rat) : Bool :=
+  match convexSign poly with
+  | none => false
+  | some sg =>
+    match poly with
+    | a :: b :: rest =>
+      let ext := poly ++ [a, b]
+      (List.zip (List.zip ext (ext.drop 1)) (ext.drop 2)).all fun ((p, q'), r) => decide (sg * area2 p q' r > sl)
+    | _ => false
+
+/-- clip the polygon `subj` by the closed left half-plane of the directed line `a → b` -/
+def clipHalfPlane (subj : List (V2 Rat)) (a b : V2 Rat) : List (V2 Rat) :=
+  (edgesOf subj).flatMap fun (p, q') =>
+    let sp := area2 a b p; let sq' := area2 a b q'
+    let inter : V2 Rat := let t := sp / (sp - sq'); p.add ((q'.sub p).smul t)
+    if sp ≥ 0 then (if sq' ≥ 0 then [q'] else [inter])
+    else (if sq' ≥ 0 then [inter, q'] else [])
+
+def trueIntersection (P Q : List (V2 Rat)) : List (V2 Rat) :=
+  (edgesOf Q).foldl (fun s (a, b) => clipHalfPlane s a b) P
+
+/-- some vertex of `Q` is within relative distance `τ` of the line of an edge of `P` and near that edge: for non-lattice
+inputs such a pair is a touching / collinear configuration up to rounding — "closer than the collinearity epsilon to
+degeneracy" but not exactly degenerate, hence outside the property's domain -/
+def nearTouch (P Q : List (V2 Rat)) (diam : Rat) : Bool :=
+  let τ : Rat := 1 / 10000000
+  (edgesOf P).any fun (a, b) => Q.any fun v =>
+    decide (rabs (area2 a b v) ≤ τ * diam * (ninf (b.sub a) + τ * diam)) &&
+    decide (rmin a.x b.x - τ * diam ≤ v.x) && decide (v.x ≤ rmax a.x b.x + τ * diam) &&
+    decide (rmin a.y b.y - τ * diam ≤ v.y) && decide (v.y ≤ rmax a.y b.y + τ * diam)
+
+def oracleCvx (p1 p2 : List (V2 Rat)) (eps : Rat) (out : List (V2 Float)) : String :=
+  if p1.length < 3 || p2.length < 3 then "skip fewer-than-3-vertices" else
+  let exact := p1.all isLat2 && p2.all isLat2
+  let bb := (p1 ++ p2).foldl (fun (m : Rat) v => rmax m (ninf v)) 0
+  let diam2 := (1 + bb) * (1 + bb)
+  let slIn : Rat := if exact then 0 else diam2 / 1000000000
+  if !(strictlyConvex p1 (rmax eps slIn)) || !(strictlyConvex p2 (rmax eps slIn)) then "skip not-strictly-convex" else
+  let P := if shoelaceR p1 < 0 then p1.reverse else p1
+  let Q := if shoelaceR p2 < 0 then p2.reverse else p2
+  let T := trueIntersection P Q
+  let At := rabs (shoelaceR T)
+  let O := out.map q2
+  if out.any (fun v => !(FloatIO.isFinite v.x && FloatIO.isFinite v.y)) then "fail non-finite-output" else
+  let Ao := rabs (shoelaceR O)
+  let tolA : Rat := diam2 / 1000000000
+  -- random inputs that are within rounding of a touching configuration are outside the domain
+  if !exact && At ≤ tolA && At > 0 then "skip rounding-sensitive" else
+  if !exact && (nearTouch P Q (1 + bb) || nearTouch Q P (1 + bb)) then "skip within-epsilon-of-degeneracy" else
+  -- every output vertex lies in both polygons
+  let slack : Rat := (1 + bb) / 100000000
+  let inside (R : List (V2 Rat)) (v : V2 Rat) : Bool :=
+    (edgesOf R).all fun (a, b) => decide (area2 a b v ≥ -slack * (1 + ninf (b.sub a)))
+  match O.find? (fun v => !(inside P v && inside Q v)) with
+  | some v => s!"fail output-vertex-outside-an-input ({v.x},{v.y})"
+  | none =>
+    if rabs (Ao - At) ≤ tolA then "pass"
+    else s!"fail area out={Ao} true={At} (doubled areas) nout={O.length}"
+
 /-! ## handlers -/
 def handler (fn : String) : Option Handler :=
   match fn with
@@ -271,6 +334,14 @@ def handler (fn : String) : Option Handler :=
                                 pure (fintri (isPointInTriangle p q' r s))) a
       oracle := fun a o => match run (do let p ← pv2; let q' ← pv2; let r ← pv2; let s ← pv2; pure (p, q', r, s)) a with
         | some (p, q', r, s) => oracleInTri (q2 p) (q2 q') (q2 r) (q2 s) o
+        | none => "skip bad-args" }
+  | "convex_polygons_intersection_points" => some {
+      model := fun a => run (do let p1 ← plist pv2; let p2 ← plist pv2; pend
+                                let r := convexPolygonsIntersectionPoints p1.toArray p2.toArray defaultCollinearityEps
+                                pure (r.foldl (fun s v => s ++ " " ++ fv2 v) s!"{r.size}")) a
+      oracle := fun a o => match run (do let p1 ← plist pv2; let p2 ← plist pv2; pure (p1, p2)) a with
+        | some (p1, p2) => withOut (plist (do let x ← pfo; let y ← pfo; pure (⟨x, y⟩ : V2 Float))) o
+            (oracleCvx (p1.map q2) (p2.map q2) (100 / 4503599627370496))
         | none => "skip bad-args" }
   | _ => none
 
